@@ -5,6 +5,7 @@ import P2PVerif.Driver.DHT
 import P2PVerif.Driver.Key
 import P2PVerif.Driver.Addr
 import P2PVerif.Driver.Frag
+import P2PVerif.Driver.Ke
 open P2PVerif.Driver
 
 def streams : List (String × Stream) := [
@@ -13,7 +14,8 @@ def streams : List (String × Stream) := [
   ("dht", dhtStream),
   ("key", keyStream),
   ("addr", addrStream),
-  ("frag", fragStream)
+  ("frag", fragStream),
+  ("ke", keStream)
 ]
 
 def main (args : List String) : IO UInt32 := do
